@@ -1,14 +1,51 @@
-TECHNIQUE = ('bounded symbolic execution of LLVM IR (clang -O1 of the real cpu_set.cpp + harness) lowered to C: '
+TECHNIQUE = ('bounded symbolic execution of LLVM IR (clang -O1 of the real dispenso/cpu_set.cpp + harness) lowered to C: '
              'CBMC/SAT (cadical); differential harnesses with a symbolic probe id against reference oracles')
 ASSUMPTIONS = [
-    'Linux backing store: CpuSet wraps glibc cpu_set_t (1024 bits); CPU_COUNT -> __sched_cpucount modelled as popcount of the words',
-    'strtol modelled per ISO C / C locale for base 10 (isspace*, optional sign, digits, saturating); strchr per ISO C',
+    'Linux backing store: CpuSet wraps glibc cpu_set_t (1024 bits, CPU_SET/CPU_CLR/CPU_ISSET macros lowered as is); '
+    'CPU_COUNT -> __sched_cpucount is modelled as the sum of per-word popcounts over the given byte size',
+    'strtol modelled per ISO C in the C locale for base 10 (isspace*, optional sign, digits, saturating, endptr); strchr/strlen per ISO C',
+    'parse: every std::string of the run fits the 15-char small-string buffer (VF_STRING_SSO_ONLY; a heap string would make the run inconclusive)',
+    'cpu-list reference grammar: sysfs cpulist output format (comma separated decimal ids and inclusive lo-hi ranges with lo <= hi, '
+    'optional trailing newline/space) plus the leniencies documented by tests/cpu_set_test.cpp (white space before an item, empty items); '
+    'other strings only have to be handled memory-safely and must yield representable ids only',
 ]
-OUTSIDE = 'filled in below'
+OUTSIDE = ('range operations touching more than 8 (quick) / 16 (thorough) representable ids when start and end are both symbolic '
+           '(SAT cost grows steeply with the number of symbolic-index bit writes: 16 ids ~80 s, 64 ids > 10 min, 1024 ids > 20 GB); '
+           'cpu-list strings longer than 3 characters (length 4 did not finish in 1700 s / 5.4 GB) and therefore ids >= 10 inside ranges, '
+           'ids above 2^20 (parseIntClamped rejects them: "0-2000000" parses to the empty set, by design of kMaxReasonableCpuId); '
+           'the portable (Windows/macOS) bitset backend; '
+           'buildGroupsFromCacheTopology (family c): the harness groups.cpp is written but the lowered libstdc++ vector/sort code with '
+           'symbolic sizes exceeds 20 GB in CBMC even for 2 L2 groups x 2 CPUs, so this part of the property is NOT decided here')
+
+RANGE_LOOPS = ['_ZN8dispenso6CpuSet8addRangeEii', '_ZN8dispenso6CpuSet11removeRangeEii']
+PARSE_LOOP = '_ZN8dispenso6detail12_GLOBAL__N_116parseAndAddRangeEPcRNS_6CpuSetE.0'
+
+
+def _range_unwind(n):
+    return {'%s.%d' % (f, k): n for f in RANGE_LOOPS for k in (0, 1)}
+
+
 INSTANCES = [
-    {'name': 'algebra', 'src': 'algebra.cpp', 'engine': 'cbmc', 'repo_sources': ['dispenso/cpu_set.cpp'],
-     'defs': {'VF_OPS': 1}, 'unwind': 1026, 'timeout': 900,
-     'bounds': 'arbitrary 1024-bit initial set, 1 operation out of add/addRange/remove/removeRange with both '
-               'arguments arbitrary int32, arbitrary int32 probe id; no bound on range length (loops unwound to 1025)',
-     'thorough': {'defs': {'VF_OPS': 2}, 'timeout': 1700}},
+    {'name': 'algebra_point', 'src': 'algebra.cpp', 'engine': 'cbmc', 'repo_sources': ['dispenso/cpu_set.cpp'],
+     'defs': {'VF_OPS': 1, 'VF_OPMASK': 5, 'VF_COUNT': 1}, 'unwind': 18, 'unwindset': _range_unwind(1), 'timeout': 900,
+     'bounds': 'arbitrary 1024-bit initial set, one add(a) or remove(a) with arbitrary int32 a, arbitrary int32 probe id; '
+               'count() compared with the bit count before and after; default construction and clear()',
+     'thorough': {'defs': {'VF_OPS': 2, 'VF_OPMASK': 5, 'VF_COUNT': 1}}},
+    {'name': 'algebra_range', 'src': 'algebra.cpp', 'engine': 'cbmc', 'repo_sources': ['dispenso/cpu_set.cpp'],
+     'defs': {'VF_OPS': 1, 'VF_OPMASK': 10, 'VF_MAXLEN': 8}, 'unwind': 18, 'timeout': 900,
+     'bounds': 'arbitrary 1024-bit initial set, one addRange(a,b) or removeRange(a,b) with arbitrary int32 a and b (negative, '
+               'reversed, huge, straddling 0 and 1024) such that at most 8 representable ids lie in [a,b); arbitrary int32 probe id',
+     'thorough': {'defs': {'VF_OPS': 1, 'VF_OPMASK': 10, 'VF_MAXLEN': 16}, 'timeout': 1700,
+                  'bounds': 'as quick with at most 16 representable ids in [a,b)'}},
+    {'name': 'algebra_range32', 'src': 'algebra.cpp', 'engine': 'cbmc', 'repo_sources': ['dispenso/cpu_set.cpp'],
+     'defs': {'VF_OPS': 1, 'VF_OPMASK': 10, 'VF_MAXLEN': 32}, 'unwind': 34, 'timeout': 1700, 'tiers': ['thorough'],
+     'bounds': 'as algebra_range with at most 32 representable ids in [a,b)'},
+    {'name': 'parse', 'src': 'parse.cpp', 'engine': 'cbmc', 'repo_sources': ['dispenso/cpu_set.cpp'],
+     'defs': {'VF_LEN': 3}, 'unwind': 5, 'unwindset': {PARSE_LOOP: 11}, 'timeout': 1200,
+     'rt_defs': {'VF_STRING_SSO_ONLY': 1},
+     'bounds': 'every NUL-terminated string of length <= 3 over {0-9 , - space newline x}, arbitrary int32 probe id'},
+    # family (c): written, not decidable within the resource limits (see OUTSIDE / NOTES.md); kept for a future round
+    {'name': 'groups', 'src': 'groups.cpp', 'engine': 'cbmc', 'repo_sources': ['dispenso/cpu_set.cpp'],
+     'defs': {'VF_NL2': 2, 'VF_NCPU': 4}, 'unwind': 6, 'timeout': 900, 'tiers': ['experimental'],
+     'bounds': '<= 2 L2 groups x <= 2 cpus, <= 2 L3 groups'},
 ]
